@@ -686,6 +686,145 @@ def r7_selection_simulation(ctx, R='C10.R7', what='selection'):
   ctx.sample(R, {'rule_lists': len(rule_lists), 'decided': n})
 
 
+def r9_signature_subgraph_table(ctx, R='C10.R9'):
+  """get_signature_main_subgraph_index on a stand-in interpreter whose
+  signatures are NOT listed in subgraph order: the index must be the one the
+  signature itself declares, whatever the position of its key."""
+  from sa import absint  # pylint: disable=g-import-not-at-top
+  rs = ctx.rule(R, 'the subgraph of a signature is the one the signature declares, not the position of its key (signatures listed out of subgraph order)', floor=1)
+  f = ctx.repo.func('utils.tfl_interpreter_utils:get_signature_main_subgraph_index')
+  ctx.instance(R)
+  layouts = {'two signatures, reversed': {'alpha': 1, 'beta': 0}, 'one signature on subgraph 2': {'only': 2}, 'three, rotated': {'p': 2, 'q': 0, 'r': 1}}
+  rs.exhaustive = True
+  for lname, sigs in layouts.items():
+    runners = {k: Obj('x:SignatureRunner', {'_subgraph_index': v, 'subgraph_index': v}) for k, v in sigs.items()}
+
+    def get_runner(a, k, kind=None):
+      key = a[0] if a else k.get('signature_key')
+      if key is None:
+        if len(sigs) != 1:
+          raise absint._Raise('ValueError', 'signature_key required')  # pylint: disable=protected-access
+        key = next(iter(sigs))
+      if key not in runners:
+        raise absint._Raise('ValueError', 'unknown signature')  # pylint: disable=protected-access
+      return runners[key]
+    interp = Obj('x:Interpreter', {
+        'get_signature_runner': shared._StandIn(get_runner, 'r'),  # pylint: disable=protected-access
+        'get_signature_list': shared._StandIn(lambda a, k, kind=None: {key: {'inputs': ['i'], 'outputs': ['o']} for key in sigs}, 'l'),  # pylint: disable=protected-access
+        '_get_full_signature_list': shared._StandIn(lambda a, k, kind=None: {key: {'subgraph_index': v, 'inputs': {}, 'outputs': {}} for key, v in sigs.items()}, 'f'),  # pylint: disable=protected-access
+    })
+    it = absint.Interp(ctx.repo, ctx.ev)
+    for key, want in list(sigs.items()) + ([(None, next(iter(sigs.values())))] if len(sigs) == 1 else []):
+      o = it.outcomes(f, [interp, key], copy_args=False)
+      label = f'{lname}: signature {key!r}'
+      if len(o) != 1 or o[0].kind != 'return' or not isinstance(o[0].value, int):
+        raise index.AnalysisError(f'{f.fq}: {label} is not decided with the stand-in interpreter ({[x.short()[:80] for x in o]}); the function uses an interpreter API the stand-in does not model')
+      ctx.check(R, o[0].value == want, f.node, f, f'{label} -> subgraph {o[0].value}',
+                f'signature {key!r} runs on subgraph {want}; calibration and validation would read the tensors (and match the rules against the operators) of subgraph {o[0].value}')
+
+
+def r8_calibrate_then_plan(ctx, R='C10.R8'):
+  """End to end on a label model, with the repository's own calibration,
+  content-map, registry functions, materialisers and numeric code (exact array
+  model); only the TFLite interpreter object is a stand-in that serves tensor
+  details / contents per sample. calibrate() on two samples, then
+  generate_quantization_parameters() with the returned statistics, for rule
+  lists that select different parts of a graph whose input and output touch
+  only an unsupported operator. Oracle: plan generation never fails for
+  missing statistics, and every runtime tensor an integer-compute rule
+  selects carries parameters."""
+  from sa import absint, consteval  # pylint: disable=g-import-not-at-top
+  from sa.consteval import Ext, Ref  # pylint: disable=g-import-not-at-top
+  from sa.ndarr import NdArr  # pylint: disable=g-import-not-at-top
+  from sa.rules import c11  # pylint: disable=g-import-not-at-top
+  rs = ctx.rule(R, 'calibrate() then quantization-plan generation, end to end: no rule list of the lattice leaves a selected tensor without statistics', floor=1)
+  cal = ctx.repo.func(f'{CAL}.calibrate')
+  gen = ctx.repo.func(f'{PG}.generate_quantization_parameters')
+  ctx.instance(R)
+  BO = consteval.schema_enum('BuiltinOperator')
+  code = lambda n: Ext(f'BuiltinOperator.{n}', BO[n])
+  OP, ALG, drq, srq, bad = c11._domain(ctx)  # pylint: disable=protected-access
+  MM, NOQ = ALG['MIN_MAX_UNIFORM_QUANT'], ALG['NO_QUANTIZE']
+  reg = tables.registry(ctx)
+  weights = NdArr((2, 2), [5, -7, 2, 9])
+  names = ['x', 'a', 'w', 'h', 'out']
+
+  def model():
+    tensors = [Obj('x:TensorT', {'name': n.encode(), 'buffer': 1 if n == 'w' else 0, 'type': 0, 'shape': [2, 2] if n == 'w' else [1, 2], 'quantization': None}) for n in names]
+    ops = [Obj('x:OperatorT', {'label': 'abs', 'opcodeIndex': 1, 'inputs': [0], 'outputs': [1], 'builtinOptions': None}),      # unknown to the quantizer
+           Obj('x:OperatorT', {'label': 'fc', 'opcodeIndex': 0, 'inputs': [1, 2], 'outputs': [3], 'builtinOptions': None}),
+           Obj('x:OperatorT', {'label': 'abs2', 'opcodeIndex': 1, 'inputs': [3], 'outputs': [4], 'builtinOptions': None})]
+    sg = Obj('x:SubGraphT', {'tensors': tensors, 'operators': ops, 'inputs': [0], 'outputs': [4], 'name': b'main'})
+    return Obj('x:ModelT', {'subgraphs': [sg], 'buffers': [Obj('x:BufferT', {'data': None}), Obj('x:BufferT', {'data': 'W'})],
+                            'operatorCodes': [Obj('x:OperatorCodeT', {'builtinCode': code('FULLY_CONNECTED')}), Obj('x:OperatorCodeT', {'builtinCode': code('CUSTOM')})]})
+
+  def content(k):
+    return {'x': NdArr((1, 2), [k, -2 * k]), 'a': NdArr((1, 2), [k, 2 * k]), 'h': NdArr((1, 2), [10 - 3 * k, k * k]), 'out': NdArr((1, 2), [3 * k, k + 1])}
+  cur = {'k': 0}
+  details = [{'name': n, 'index': i, 'dtype': 'float32', 'quantization_parameters': {'scales': [], 'zero_points': [], 'quantized_dimension': 0}} for i, n in enumerate(names)]
+  interp = Obj('x:Interpreter', {
+      'reset_all_variables': shared._StandIn(lambda a, k, kind=None: None, 'r'),            # pylint: disable=protected-access
+      'get_tensor_details': shared._StandIn(lambda a, k, kind=None: [dict(d) for d in details], 'd'),  # pylint: disable=protected-access
+      'get_tensor': shared._StandIn(lambda a, k, kind=None: (content(cur['k']).get(names[a[0]]) if names[a[0]] != 'w' else weights), 't'),   # pylint: disable=protected-access
+  })
+
+  def invoke(a, k):
+    cur['k'] = a[1]['k']
+    return {}
+
+  def lookup(alg, op, what):
+    try:
+      return Ref('func', reg[alg][op][what].fq)
+    except (KeyError, TypeError):
+      raise index.AnalysisError(f'{R}: registry lookup with an undecided key ({alg!r}, {op!r})')
+  hooks = {
+      c11.CHECK_FQ: (lambda a, k: c11._mk_interp(ctx).hooks[c11.CHECK_FQ](a, k)),  # pylint: disable=protected-access
+      'algorithm_manager.get_init_qsv_func': lambda a, k: lookup(a[0], a[1], 'init'),
+      'algorithm_manager.get_quantization_func': lambda a, k: lookup(a[0], a[1], 'calibrate' if getattr(a[2], 'name', '') == 'CALIBRATE' else 'materialize'),
+      'tfl_interpreter_utils.invoke_interpreter_signature': invoke,
+      'tfl_interpreter_utils.get_signature_main_subgraph_index': lambda a, k: 0,
+      'tfl_flatbuffer_utils.get_tensor_data': lambda a, k: (weights if a[0].fields.get('buffer') == 1 else None),
+      'np.issubdtype': lambda a, k: True,
+      f'{PG}._check_tensor_names_are_unique': lambda a, k: None,
+  }
+  IN, OUT, FC, ALL = OP['INPUT'], OP['OUTPUT'], OP['FULLY_CONNECTED'], OP['ALL_SUPPORTED']
+  lists = {
+      'everything static-range (*)': [c11._recipe('.*', ALL, MM, srq)],                          # pylint: disable=protected-access
+      'INPUT and OUTPUT only': [c11._recipe('.*', IN, MM, srq), c11._recipe('.*', OUT, MM, srq)],   # pylint: disable=protected-access
+      'FULLY_CONNECTED only': [c11._recipe('.*', FC, MM, srq)],                                    # pylint: disable=protected-access
+      'static * then dynamic FC': [c11._recipe('.*', ALL, MM, srq), c11._recipe('.*', FC, MM, drq)],   # pylint: disable=protected-access
+      'OUTPUT only': [c11._recipe('out', OUT, MM, srq)],                                           # pylint: disable=protected-access
+  }
+  rs.exhaustive = True
+  for lname, rules in lists.items():
+    store = {}
+    for r in rules:
+      store.setdefault(r.fields['regex'], []).append(r)
+    it = absint.Interp(ctx.repo, ctx.ev, hooks=hooks)
+    rm = Obj('recipe_manager:RecipeManager', {'_scope_configs': store})
+    calo = Obj(CAL, {'_flatbuffer_model': model(), '_tfl_interpreter': interp, '_tensor_content_map': {}, '_model_qsvs': {}, '_cached_output': []})
+    o1 = it.outcomes(cal, [calo, [{'k': 1}, {'k': 2}], rm, None], copy_args=False)
+    if len(o1) != 1 or o1[0].kind != 'return':
+      ctx.check(R, False, cal.node, cal, lname, f'calibrate: {[x.short()[:120] for x in o1]}')
+      continue
+    stats = calo.fields['_model_qsvs']
+    pg = Obj(PG, {'flatbuffer_model': model(), 'model_quant_results': {}, 'buffer_to_tensors': {}})
+    o2 = it.outcomes(gen, [pg, rm, stats], copy_args=False)
+    ok = len(o2) == 1 and o2[0].kind == 'return'
+    ctx.check(R, ok, gen.node, gen, f'{lname}: statistics for {sorted(k for k, v in stats.items() if v)}',
+              f'quantization-plan generation after a successful calibrate(): {[x.short()[:160] for x in o2]} - statistics of a selected tensor are missing')
+    if not ok:
+      continue
+    plan = pg.fields['model_quant_results']
+    # every tensor that a static-range rule selects carries parameters
+    for name, e in sorted(plan.items()):
+      entries = ([e.fields['producer']] if e.fields['producer'] is not None else []) + list(e.fields['consumers'] or [])
+      for x in entries:
+        kinds = [t.name for t in x.fields['transformations']]
+        if any(k in ('ADD_QUANTIZE', 'ADD_DEQUANTIZE', 'QUANTIZE_TENSOR') for k in kinds):
+          ctx.check(R, isinstance(x.fields['parameters'], Obj), gen.node, gen, f'{lname}: tensor {name} {kinds}', f'tensor {name} is to be quantized ({kinds}) but has no parameters')
+
+
 def run(ctx):
   r1_one_scope_function(ctx)
   r2_one_protocol(ctx)
@@ -694,3 +833,5 @@ def run(ctx):
   r5_absent_not_empty(ctx)
   r6_need_calibration_sound(ctx)
   r7_selection_simulation(ctx)
+  r8_calibrate_then_plan(ctx)
+  r9_signature_subgraph_table(ctx)
